@@ -101,6 +101,22 @@ func (r valT) put(x string) {
 	enter()
 }
 
+type bus interface {
+	sub(f func(string) string)
+	fire(x string) string
+}
+
+type busA struct{ h func(string) string }
+
+func (r *busA) sub(f func(string) string) {
+	enter()
+	r.h = f
+}
+func (r *busA) fire(x string) string {
+	enter()
+	return r.h(x)
+}
+
 type gbox[T any] struct {
 	s string
 	z T
@@ -340,11 +356,18 @@ class Prog:
             f = self.funcs[name]
             self._emit_func(f, toplevel=True)
         # fixed methods of the type declarations
-        flat["funcs"].update(FIXED_METHOD_CODE)
+        import copy
+        fixed = copy.deepcopy(FIXED_METHOD_CODE)
+        for fn, (idx, text) in CALLSITE_IN_FIXED.items():
+            fixed[fn]["code"][idx]["n"] = self.lines.index(text) + 1
+        flat["funcs"].update(fixed)
         flat["methods"] = FIXED_METHODS
         # declaration line of every function (closures: the line of the func literal), used to match analyzer facts
         decl = dict(self.decl)
         for i, l in enumerate(self.lines, 1):
+            for m in ("sub", "fire"):
+                if l.startswith("func (r *busA) %s(" % m):
+                    decl["busA.%s" % m] = i
             for recv, tn in (("(r *impA)", "impA"), ("(r *impB)", "impB"), ("(r valT)", "valT")):
                 for m in ("get", "put"):
                     if l.startswith("func %s %s(" % (recv, m)):
@@ -878,6 +901,12 @@ FIXED_METHOD_CODE = {
     "gboxN.get": {"params": ["r"], "frees": [], "named": [], "results": ["D"], "code": [I("enter"), I("field", d="%v", a=["r"], s="s"), I("ret", a=["%v"])]},
     "gboxN.put": {"params": ["r", "x"], "frees": [], "named": [], "results": [], "code": [I("enter"), I("ret")]},
 }
+FIXED_METHOD_CODE.update({
+    "busA.sub": {"params": ["r", "f"], "frees": [], "named": [], "results": [], "code": [I("enter"), I("faddr", d="%f", a=["r"], s="h"), I("store", a=["%f", "f"]), I("ret")]},
+    # the call site line of r.h(x) is filled in at render time (CALLSITE_IN_FIXED)
+    "busA.fire": {"params": ["r", "x"], "frees": [], "named": [], "results": ["D"], "code": [I("enter"), I("faddr", d="%f", a=["r"], s="h"), I("load", d="%h", a=["%f"]), I("callv", ds=["%v"], a=["%h", "x"]), I("ret", a=["%v"])]},
+})
+CALLSITE_IN_FIXED = {"busA.fire": (3, "\treturn r.h(x)")}    # function -> (index of the call instruction, source line text)
 # type arguments of the instantiated functions (the real analysis distinguishes them although they share a declaration)
 FIXED_INST = {"gboxS.get": "string", "gboxS.put": "string", "gboxN.get": "int", "gboxN.put": "int"}
 GENERIC_IMPLS = {"gboxS": "gbox[string]", "gboxN": "gbox[int]"}
@@ -885,6 +914,7 @@ FIXED_METHODS = {
     "*impA": {"get": "impA.get", "put": "impA.put"},
     "*impB": {"get": "impB.get", "put": "impB.put"},
     "valT": {"get": "valT.get", "put": "valT.put"},
+    "*busA": {"sub": "busA.sub", "fire": "busA.fire"},
     "gboxS": {"get": "gboxS.get", "put": "gboxS.put"},
     "gboxN": {"get": "gboxN.get", "put": "gboxN.put"},
 }
@@ -896,6 +926,7 @@ FLAT_TYPES = {
     "impA": [["v", "D"]],
     "impB": [["w", "D"], ["v", "D"]],
     "valT": [["v", "D"]],
+    "busA": [["h", "P"]],
     "gboxS": [["s", "D"], ["z", "D"]],
     "gboxN": [["s", "D"], ["z", "D"]],
 }
